@@ -29,6 +29,8 @@ def make_beads(case):
     for c in range(nch):
         m = r.uniform(0.9, 1.2); b = r.uniform(case.get('b_min', 1), 5)
         top = 10 ** r.uniform(4.6, 5.1)                      # brightest bead in RFI
+        if case.get('top_fixed'):
+            top = float(case['top_fixed'])
         if case.get('dim') and c == 0:
             # channel 0 acquired at a low gain: its dimmest subpopulation is of order 1 a.u. on the 18-bit range (slope and intercept as everywhere)
             top = case['dim'] * ratio ** (K - 1)
@@ -50,7 +52,7 @@ def make_beads(case):
         vals = [means[c][j] * np.exp(r.normal(0, cv, size=sizes[j])) for j in range(K)]
         cols.append(np.concatenate(vals))
     data = np.stack(cols, axis=1)
-    res = 262144
+    res = case.get('res', 262144)
     if case['saturate']:
         # the brightest population piles up at the detector limit in channel 0
         scale = (res - 1) / np.median(data[label == K - 1, 0]) * 1.3
@@ -87,7 +89,7 @@ def make_beads(case):
         d = FlowCal.transform.to_rfi(d)
     elif case.get('intdata'):
         # an 18-bit digital instrument: linear amplifier, integer events, analysed as loaded (integer container)
-        spec = {'version': 'FCS3.0', 'delim': '/', 'datatype': 'I', 'byteord': '1,2,3,4', 'widths': [32] * nch, 'ranges': [res] * nch,
+        spec = {'version': 'FCS3.0', 'delim': '/', 'datatype': 'I', 'byteord': '1,2,3,4', 'widths': [case.get('int_width', 32)] * nch, 'ranges': [res] * nch,
                 'events': [[int(round(v)) for v in row] for row in data], 'names': chans, 'pne': {str(i + 1): '0,0' for i in range(nch)}}
         d, _ = samples.load(spec, name='c02_%d.fcs' % (case['seed'] % 7))
     else:
@@ -169,6 +171,10 @@ class Prop(common.PropertyCheck):
         # integer samples (events kept in the integer container they were loaded into)
         for i in range(2):
             yield dict(base_case, K=6 + i, sizes=[450] * (6 + i), nch=1 + i, intdata=True, clust=['all', 'first'][i], saturate=bool(i), seed=3000 + i)
+        # integer containers whose brightest subpopulations lie above 2**16 (32-bit files) resp. above 2**8 (16-bit files): squares of events do not fit the container
+        yield dict(base_case, K=6, sizes=[450] * 6, ratio=2.5, nch=1, intdata=True, top_fixed=125000, seed=3010)
+        yield dict(base_case, K=7, sizes=[400] * 7, ratio=2.6, nch=2, intdata=True, top_fixed=120000, clust='first', seed=3011)
+        yield dict(base_case, K=6, sizes=[450] * 6, ratio=3.0, nch=1, intdata=True, int_width=16, res=65536, top_fixed=50000, seed=3012)
         # the clustering channel acquired at a low gain (dimmest subpopulations around 1 a.u.), a second channel calibrated from the same clusters
         for i, dim in enumerate((0.6, 1.0, 0.8)):
             yield dict(base_case, K=8, sizes=[500] * 8, ratio=3.0, nch=2, dim=dim, clust='first', seed=2000 + i)
@@ -323,6 +329,15 @@ class Prop(common.PropertyCheck):
         except Exception as e:
             out['inj_err'] = type(e).__name__ + ':' + str(e)[:100]
             return out
+        # the same with the selection step switched off (selection_fxn=None): unknown entries still take no part, every other subpopulation does
+        try:
+            np.random.seed(1)
+            rns = FlowCal.mef.get_transform_fxn(d, mv_arg, chans, clustering_fxn=lambda data, n, **kw: true_labels.copy(), clustering_channels=clch,
+                                                statistic_fxn=statf, selection_fxn=None, full_output=True)
+            out['nosel'] = {'rfi': [[bits(v) for v in s] for s in rns.selection['rfi']], 'mef': [[bits(v) for v in s] for s in rns.selection['mef']],
+                            'params_finite': bool(all(np.all(np.isfinite(np.asarray(p, dtype=float))) for p in rns.fitting['beads_params']))}
+        except Exception as e:
+            out['nosel'] = {'err': type(e).__name__ + ':' + str(e)[:80]}
         # independent expectation for (i)
         exp_stats, exp_sel = [], []
         pops_true = [np.asarray(d)[tr['label'] == j] for j in range(K)]
@@ -346,7 +361,10 @@ class Prop(common.PropertyCheck):
                 span = np.exp(np.linspace(np.log(max(sel_rfi.min(), 1.0)), np.log(sel_rfi.max()), 40))
                 true = np.exp(b) * span ** m
                 got = np.asarray(res.fitting['std_crv'][ci](span))
-                worst = max(worst, float(np.max(np.abs(got / true - 1))))
+                dev = float(np.max(np.abs(got / true - 1)))
+                if not math.isfinite(dev):
+                    return float('inf')        # a curve that is not a number somewhere on the calibrated span is as wrong as can be
+                worst = max(worst, dev)
             return worst
         out['inj_acc'] = accuracy(r1)
         # (ii) real clustering
@@ -444,12 +462,18 @@ class Prop(common.PropertyCheck):
                 return 'channel %d: selected (RFI, MEF) pairs differ from "own value, unknown/saturated excluded" (%s)' % (ci, tag)
             if len(inj['rfi'][ci]) != len(inj['mef'][ci]):
                 return 'selected RFI and MEF lists differ in length'
+            ns = impl.get('nosel')
+            if ns is not None and 'err' not in ns:
+                ns_r = [s for s, m in zip(impl['exp_stats'][ci], impl['mef_values'][ci]) if m is not None]
+                ns_m = [m for m in impl['mef_values'][ci] if m is not None]
+                if ns['rfi'][ci] != ns_r or ns['mef'][ci] != ns_m:
+                    return 'channel %d, selection switched off: the pairs handed to the fit are not "every subpopulation with a known value, with its own value" (%s)' % (ci, tag)
         # known by construction, independent of the library's own selection: a subpopulation piled up at a detector limit takes no part in the fit
         for ci, j in impl.get('piled', []):
             mv = impl['mef_values'][ci][j]
             if mv is not None and mv in inj['mef'][ci]:
                 return 'channel %d: subpopulation %d is piled up at a detector limit but took part in the fit (%s)' % (ci, j, tag)
-        if impl['inj_acc'] > 0.10:
+        if not (impl['inj_acc'] <= 0.10):
             return 'with the true grouping the conversion is %.1f%% off the truth (%s)' % (100 * impl['inj_acc'], tag)
         # stage (ii): the real clustering
         problems = []
@@ -460,7 +484,7 @@ class Prop(common.PropertyCheck):
                 problems.append('clustering_gmm did not recover the generating subpopulations (%d events misassigned)' % impl.get('misassigned', -1))
             elif impl['gmm']['rfi'] != inj['rfi'] or impl['gmm']['mef'] != inj['mef']:
                 problems.append('partition recovered but selected pairs differ from the fit to the true subpopulations')
-            if impl['gmm_acc'] > 0.10:
+            if not (impl['gmm_acc'] <= 0.10):
                 problems.append('conversion %.1f%% off the truth' % (100 * impl['gmm_acc']))
             if not impl['reproducible']:
                 problems.append('not reproducible for a fixed random seed')
